@@ -726,6 +726,13 @@ class Executor:
             set_discr("(ite (= %s %s) %s %s)" % (d.term, bv(1, 64), bv(0, 64), bv(1, 64)))
             self.copy_from(env, "(%s as Some).0" % src, "(%s as Ok).0" % dest)
             return True
+        if re.search(r"Result::<.*>::map_err(::<.*>)?$", callee):
+            src = arg_place(0)
+            d = self.read_discr(env, src)
+            set_discr(d.term)
+            self.copy_from(env, "(%s as Ok).0" % src, "(%s as Ok).0" % dest)
+            ev.passthrough_of = src
+            return True
         if re.search(r"Option::<.*>::(as_ref|as_mut|as_deref|as_deref_mut)$", callee):
             src = arg_place(0)
             d = self.read_discr(env, src)
@@ -746,6 +753,79 @@ class Executor:
             e = "(= %s %s)" % (d.term, bv(0, 64))
             self.kill(env, dest)
             env[dest] = Val(self.ctx.define("is", "Bool", e if callee.endswith("is_ok") else NOT(e)), "Bool")
+            return True
+        # ---- exact models of integer std methods
+        m = re.search(r"core::num::<impl (i8|i16|i32|i64|isize|u8|u16|u32|u64|usize)>::(checked_add|checked_sub|checked_mul|saturating_add|saturating_sub|wrapping_add|wrapping_sub|min|max)$", callee)
+        if m and len(args) == 2 and args[0]["val"].term and args[1]["val"].term and args[0]["val"].sort == args[1]["val"].sort == INT_W[m.group(1)]:
+            ty, op = m.group(1), m.group(2)
+            a, b = args[0]["val"], args[1]["val"]
+            sg = is_signed(ty)
+            w = INT_W[ty]
+            if op.startswith("checked_"):
+                kind = {"add": "Add", "sub": "Sub", "mul": "Mul"}[op[8:]]
+                res = self.binop(kind, a, b, ty)
+                ovf = self.overflow(kind, a, b, sg)
+                self.kill(env, dest)
+                env[dest] = Val(self.ctx.sym("res." + dest, 64), 64)
+                env["discr(%s)" % dest] = Val(self.ctx.define("ck", 64, "(ite %s %s %s)" % (ovf, bv(0, 64), bv(1, 64))), 64)
+                env["(%s as Some).0" % dest] = Val(self.ctx.define("ckv", w, res.term), w)
+                return True
+            if op.startswith("wrapping_"):
+                res = self.binop("Add" if op.endswith("add") else "Sub", a, b, ty)
+            elif op.startswith("saturating_"):
+                kind = "Add" if op.endswith("add") else "Sub"
+                r0 = self.binop(kind, a, b, ty)
+                ovf = self.overflow(kind, a, b, sg)
+                if sg:
+                    mx, mn = bv((1 << (w - 1)) - 1, w), bv(1 << (w - 1), w)
+                    # on signed overflow the result saturates toward the sign of a (add) / of a (sub)
+                    sat = "(ite (bvslt %s %s) %s %s)" % (a.term, bv(0, w), mn, mx)
+                else:
+                    sat = bv((1 << w) - 1, w) if kind == "Add" else bv(0, w)
+                res = Val("(ite %s %s %s)" % (ovf, sat, r0.term), w)
+            else:
+                lt = "(%s %s %s)" % ("bvslt" if sg else "bvult", a.term, b.term)
+                res = Val("(ite %s %s %s)" % (lt, a.term if op == "min" else b.term, b.term if op == "min" else a.term), w)
+            self.kill(env, dest)
+            env[dest] = Val(self.ctx.define("im", w, res.term), w)
+            return True
+        m = re.search(r"<(i8|i16|i32|i64|isize|u8|u16|u32|u64|usize) as TryFrom<(i8|i16|i32|i64|isize|u8|u16|u32|u64|usize)>>::try_from$", callee)
+        if m and len(args) == 1 and args[0]["val"].term and args[0]["val"].sort == INT_W[m.group(2)]:
+            to, frm = m.group(1), m.group(2)
+            a = args[0]["val"]
+            wt, wf = INT_W[to], INT_W[frm]
+            conv = self.resize(a, wt, is_signed(frm))
+            back = self.resize(conv, wf, is_signed(to))
+            fits = "(= %s %s)" % (back.term, a.term)
+            if is_signed(to) != is_signed(frm):
+                # sign change: additionally the value must be non-negative in both views
+                neg_src = "(bvslt %s %s)" % (a.term, bv(0, wf)) if is_signed(frm) else "false"
+                neg_dst = "(bvslt %s %s)" % (conv.term, bv(0, wt)) if is_signed(to) else "false"
+                fits = AND(fits, NOT(neg_src), NOT(neg_dst))
+            self.kill(env, dest)
+            env[dest] = Val(self.ctx.sym("res." + dest, 64), 64)
+            env["discr(%s)" % dest] = Val(self.ctx.define("tf", 64, "(ite %s %s %s)" % (fits, bv(0, 64), bv(1, 64))), 64)
+            env["(%s as Ok).0" % dest] = Val(self.ctx.define("tfv", wt, conv.term), wt)
+            return True
+        m = re.search(r"(Result|Option)::<(i8|i16|i32|i64|isize|u8|u16|u32|u64|usize)(, .*)?>::unwrap_or$", callee)
+        if m and len(args) == 2 and args[1]["val"].term:
+            src = arg_place(0)
+            var = "Ok" if m.group(1) == "Result" else "Some"
+            good = bv(0, 64) if m.group(1) == "Result" else bv(1, 64)
+            w = INT_W[m.group(2)]
+            pay = env.get("(%s as %s).0" % (src, var)) or self.read(env, "(%s as %s).0" % (src, var), m.group(2))
+            dflt = args[1]["val"]
+            if dflt.sort != w:
+                lit = self.named_consts.get(args[1]["text"].split("::")[-1])
+                if args[1]["text"].endswith("::MAX"):
+                    dflt = Val(bv((1 << (w - 1)) - 1 if is_signed(m.group(2)) else (1 << w) - 1, w), w)
+                elif args[1]["text"].endswith("::MIN"):
+                    dflt = Val(bv((1 << (w - 1)) if is_signed(m.group(2)) else 0, w), w)
+                else:
+                    return False
+            d = self.read_discr(env, src)
+            self.kill(env, dest)
+            env[dest] = Val(self.ctx.define("uo", w, "(ite (= %s %s) %s %s)" % (d.term, good, pay.term, dflt.term)), w)
             return True
         if re.search(r"<.* as (std::convert::)?(Into|From)<.*>>::(into|from)$|<.* as Clone>::clone$|<.* as ToOwned>::to_owned$|<.* as (std::ops::)?Deref(Mut)?>::deref(_mut)?$", callee):
             # value-preserving conversions of opaque data: fresh, no side effect
